@@ -59,20 +59,21 @@ func g2Point(c *mon.Case, g *group, k *big.Int, rep int) *g2op {
 }
 
 // g2op is a G2 operand of Pair; viaNeg records that the object came directly
-// out of G2.Neg (the predicate of the open finding g2-neg-stale-t).
+// out of G2.Neg (informational: counted in the evidence).
 type g2op struct {
 	p      *h.G2
 	viaNeg bool
 }
 
 // pairEq runs Pair(p,q) and compares the result with the expected bytes. It
-// returns the (correct) value for use in further checks, or nil.
-//
-// Open finding g2-neg-stale-t: G2.Neg zeroes the cached t = z^2 and the Miller
-// loop trusts it when z = 1, so Pair is wrong for a negated affine operand.
-// Matcher: the operand came out of Neg, and the same call on the re-decoded
-// operand (same point, fresh representation) gives the expected value.
+// returns the value for use in further checks, or nil.
+// (Operands that come directly out of G2.Neg are part of the workload on
+// purpose: commit e119ec8 fixed Pair for a negated affine G2 point, whose cached
+// t = z^2 was stale.)
 func pairEq(c *mon.Case, what string, p *h.G1, q *g2op, want []byte) *h.GT {
+	if q.viaNeg {
+		c.Event("pairing.g2-operand-from-neg", 1)
+	}
 	r := libPair(c, p, q.p)
 	if r == nil {
 		return nil
@@ -81,27 +82,10 @@ func pairEq(c *mon.Case, what string, p *h.G1, q *g2op, want []byte) *h.GT {
 	if !c.Call("GT.Marshal", func() { m = r.Marshal() }) {
 		return nil
 	}
-	c.Event("compare", 1)
-	if bytes.Equal(m, want) {
-		return r
+	if !c.Eq(what, m, want) {
+		return nil
 	}
-	if q.viaNeg {
-		var r2 *h.GT
-		var m2 []byte
-		pi := mon.Try(func() {
-			q2 := new(h.G2)
-			if _, err := q2.Unmarshal(q.p.Marshal()); err == nil {
-				r2 = h.Pair(p, q2)
-				m2 = r2.Marshal()
-			}
-		})
-		if pi == nil && bytes.Equal(m2, want) {
-			c.Known("g2-neg-stale-t", "mismatch", "%s: Pair with a G2 operand that came out of G2.Neg is wrong (right after re-decoding the same point): got %x", what, m)
-			return r2
-		}
-	}
-	c.Eq(what, m, want)
-	return nil
+	return r
 }
 
 var pairRepNames = []string{"basemult", "affine", "sum", "compressed", "negneg"}
